@@ -23,8 +23,9 @@ def Inc(sub):
     return {"k": "include", "n": 0, "sub": sub}
 
 
-def fault_text(f):
-    body = {"parse": "vd__q = 1 ) ;", "runtime": 'vd__q = 1 + "a";'}.get(f["kind"], "vd__m = [__LINE__, __FILE__];")
+def fault_text(f, nl):
+    body = {"parse": "vd__q = 1 ) ;", "runtime": 'vd__q = 1 + "a";',
+            "linemacroeol": "vd__m = [__LINE__" + nl + ", __FILE__];"}.get(f["kind"], "vd__m = [__LINE__, __FILE__];")
     return " " * f["pad"] + ('vd__s = "p""q"; ' if f.get("pre") else "") + body
 
 
@@ -38,6 +39,8 @@ def el_text(el, nl, incname):
         return "#define VD_A 1" + nl
     if k == "bcomment":
         return "/* c ) */" + nl if n == 1 else "/* c" + nl + (" c )" + nl) * (n - 2) + " c */" + nl
+    if k == "bcommentblank":
+        return "/* c" + nl + nl * n + " c */" + nl
     if k == "definecont":
         return "#define VD_B x \\" + nl + (" y \\" + nl) * (n - 1) + " z" + nl
     if k == "textcont":
@@ -79,7 +82,7 @@ def files_of(src):
 
     def nest(j, nf):
         if j >= len(src["nest"]):
-            return fault_text(src["fault"]) + nl, [], nf
+            return fault_text(src["fault"], nl) + nl, [], nf
         name = "inc%d.sqf" % (nf + 1)
         bt, bf, nf2 = lay_files(src["nest"][j], nl, nf + 1)
         rt, rf, nf3 = nest(j + 1, nf2)
@@ -95,8 +98,10 @@ def rand_layout(rng, n, depth):
         ch = rng.random()
         if ch < 0.25:
             out.append(El(rng.choice(["plain", "lcomment", "define", "undef", "undefmissing", "inactivestr"])))
-        elif ch < 0.40:
+        elif ch < 0.34:
             out.append(El("bcomment", rng.randint(1, 5)))
+        elif ch < 0.40:
+            out.append(El("bcommentblank", rng.randint(1, 3)))
         elif ch < 0.55:
             out.append(El("definecont", rng.randint(1, 4)))
         elif ch < 0.65:
@@ -115,7 +120,7 @@ def random_sources(rng, n):
     for _ in range(n):
         out.append({"lay": rand_layout(rng, rng.randint(3, 8), 2), "crlf": rng.random() < 0.3,
                     "nest": [rand_layout(rng, rng.randint(0, 4), 1) for _ in range(rng.choice([0, 0, 1, 2]))],
-                    "fault": (lambda k: {"kind": k, "pad": rng.randint(0, 4), "pre": 1 if k != "linemacro" and rng.random() < 0.3 else 0})(rng.choice(["parse", "runtime", "linemacro"]))})
+                    "fault": (lambda k: {"kind": k, "pad": rng.randint(0, 4), "pre": 1 if k in ("parse", "runtime") and rng.random() < 0.3 else 0})(rng.choice(["parse", "runtime", "linemacro", "linemacroeol"]))})
     return out
 
 
@@ -181,9 +186,10 @@ def run(rep, tier, seed, replay):
     wdir = vlib.workdir("C14")
     quick = tier == "quick"
     rep.assumptions += [
-        "layout elements: plain line, // line, block comment of n lines, #define, #define continued over n+1 lines, statement continued by n "
+        "layout elements: plain line, // line, block comment of n lines (also with completely empty lines inside), #define, #define continued over n+1 lines, statement continued by n "
         "backslash-newlines, inactive/active conditional section of n lines, #include (nested <= 2 in the enumerated part), LF or CRLF line ends",
-        "faults: stray ')' (parse diagnostic), 1 + \"a\" (runtime diagnostic and its stack-trace entries), [__LINE__, __FILE__]; "
+        "faults: stray ')' (parse diagnostic), 1 + \"a\" (runtime diagnostic and its stack-trace entries), [__LINE__, __FILE__] on one line "
+        "and with __LINE__ as the last thing of its line; "
         "at 0..4 columns of indentation; one fault per source, at the end of the main file or inside a chain of nested includes",
         "files are compared by base name (the scratch directory differs per case); columns are 0-based offsets of the offending token "
         "(convention observed for a fault on the first line of a file)",
